@@ -78,3 +78,26 @@ fn c14_exclusion_verify() {
     assert!(got == want, "C14 exclusion verifier: refuses a leaf with the queried key, otherwise accepts exactly when the recomputation reaches the root");
     core::mem::forget(p); core::mem::forget(proof);
 }
+
+//@ props=C14 tier=thorough class=bounded(concrete) timeout=2400 -- proof length guard: an inclusion proof with exactly 256 side nodes (maximal depth) is still verified by recomputation, one with 257 is refused (concrete key and side hashes; hashes abstracted)
+#[kani::proof]
+#[kani::unwind(260)]
+#[kani::stub(crate::sparse::hash::calculate_leaf_hash, leaf_model)]
+#[kani::stub(crate::sparse::hash::calculate_node_hash, node_model)]
+#[kani::stub(crate::common::sum, sum_stub)]
+fn c14_proof_length_guard() {
+    let key = [0x5au8; 32];
+    let mut side = [0u8; 32]; side[0] = 9;
+    let mut proof: Vec<Bytes32> = Vec::with_capacity(257);
+    let mut i = 0; while i < 256 { proof.push(side); i += 1; }
+    let start = leaf_model(&key, &sum_stub(&[0u8; 0]));
+    let root = spec_fold(&key, start, &proof);
+    let p = InclusionProof { proof_set: proof.clone() };
+    assert!(p.verify(&root, &unsafe { MerkleTreeKey::convert(key) }, &[]), "C14 a proof of the maximal depth 256 is verified by recomputation, not refused by the length guard");
+    let mut longer = proof.clone();
+    longer.push(side);
+    let root2 = spec_fold(&key, start, &longer[1..]);
+    let q = InclusionProof { proof_set: longer };
+    assert!(!q.verify(&root2, &unsafe { MerkleTreeKey::convert(key) }, &[]), "C14 a proof set longer than 256 is refused");
+    core::mem::forget(p); core::mem::forget(q); core::mem::forget(proof);
+}
